@@ -4,6 +4,7 @@ import (
 	"container/heap"
 	"context"
 	"sync"
+	"sync/atomic"
 	"time"
 
 	"github.com/iotaledger/hive.go/ds/bitmask"
@@ -199,6 +200,10 @@ func (t *Queue[T]) Poll(waitIfEmpty bool) T {
 			// immediately return the value if the pending timeouts are supposed to be ignored
 			if t.shutdownFlags.HasBits(IgnorePendingTimeouts) {
 				timeutil.CleanupTimer(timer)
+				if !polledElement.Value.markDelivered() {
+					continue
+				}
+
 				return polledElement.Value.Value
 			}
 
@@ -209,8 +214,12 @@ func (t *Queue[T]) Poll(waitIfEmpty bool) T {
 				timeutil.CleanupTimer(timer)
 				continue
 
-			// return the result after the time is reached
+			// return the result after the time is reached (unless it was canceled in the meantime)
 			case <-timer.C:
+				if !polledElement.Value.markDelivered() {
+					continue
+				}
+
 				return polledElement.Value.Value
 			}
 
@@ -219,8 +228,12 @@ func (t *Queue[T]) Poll(waitIfEmpty bool) T {
 			timeutil.CleanupTimer(timer)
 			continue
 
-		// return the result after the time is reached
+		// return the result after the time is reached (unless it was canceled in the meantime)
 		case <-timer.C:
+			if !polledElement.Value.markDelivered() {
+				continue
+			}
+
 			return polledElement.Value.Value
 		}
 	}
@@ -249,24 +262,45 @@ type QueueElement[T any] struct {
 	timedQueue *Queue[T]
 	cancel     chan byte
 	rawElem    *generalheap.HeapElement[HeapKey, *QueueElement[T]]
+
+	// state decides atomically whether the element gets delivered by Poll or canceled (whatever happens first).
+	state atomic.Uint32
+}
+
+const (
+	elementPending uint32 = iota
+	elementDelivered
+	elementCanceled
+)
+
+// markDelivered is called by Poll right before it hands out the element; it returns false if the element was canceled.
+func (timedQueueElement *QueueElement[T]) markDelivered() bool {
+	return timedQueueElement.state.CompareAndSwap(elementPending, elementDelivered)
 }
 
 // Cancel removed the given element from the queue and cancels its execution.
 func (timedQueueElement *QueueElement[T]) Cancel() {
+	timedQueueElement.tryCancel()
+}
+
+// tryCancel cancels the element and returns true if this call prevented the element from being delivered (false if it
+// was delivered or canceled already).
+func (timedQueueElement *QueueElement[T]) tryCancel() bool {
 	// acquire locks
 	timedQueueElement.timedQueue.heapMutex.Lock()
 	defer timedQueueElement.timedQueue.heapMutex.Unlock()
 
+	if !timedQueueElement.state.CompareAndSwap(elementPending, elementCanceled) {
+		return false
+	}
+
 	// remove element from queue
 	timedQueueElement.timedQueue.removeElement(timedQueueElement)
 
-	select {
-	case <-timedQueueElement.cancel:
-		// channel is already closed
-	default:
-		// close the cancel channel to notify subscribers
-		close(timedQueueElement.cancel)
-	}
+	// close the cancel channel to notify subscribers
+	close(timedQueueElement.cancel)
+
+	return true
 }
 
 // endregion ///////////////////////////////////////////////////////////////////////////////////////////////////////////
